@@ -6,6 +6,7 @@ class C03(Check):
     props_rel = "Props/C03"
     corr_module = "Corr.C03"
     corr_rel = "Corr/C03"
+    gen_rels = ["Gen/Consts"]
     model_desc = ("Model/NameWire.v: packDomainName (escape reader, label/length checks, 255-octet accounting, "
                   "compression map), UnpackDomainName (budget, pointer-hop limit, escaping printer), IsDomainName, "
                   "IsFqdn modelled statement by statement; Model/Name.v: presentation form of wire labels")
